@@ -491,8 +491,14 @@ def _is_count(fn, e, depth=0, prog=None):
         # a field of a struct of counters
         return _is_count(fn, e["c"][0], depth + 1, prog)
     if e.get("k") == "DeclRefExpr":
+        # a sum of counts: starts at 0 (or at a count) and is only ever increased by counts
+        adds = [w for w in fn.walk() if w.get("k") in ("CompoundAssignOperator", "BinaryOperator", "UnaryOperator") and
+                w.get("op") in flow.ASSIGN_OPS | {"++", "--"} and (strip_all(w["c"][0]) or {}).get("d") == e.get("d")]
         for v in fn.walk():
             if v.get("k") == "VarDecl" and v.get("d") == e.get("d") and v.get("c"):
+                if adds:
+                    return (folded(v["c"][0]) == 0 or _is_count(fn, v["c"][0], depth + 1, prog)) and \
+                        all(w.get("op") == "+=" and _is_count(fn, w["c"][1], depth + 1, prog) for w in adds)
                 return _is_count(fn, v["c"][0], depth + 1, prog)
     return False
 
